@@ -285,7 +285,7 @@ static bool parsePlan (const std::string& text, Plan& p, std::string& err)
 // ------------------------------------------------------------------------------------------------
 // Generation (the only place the PRNG is used)
 // ------------------------------------------------------------------------------------------------
-static const char* VECS[] = {"V2f", "V3f", "V2d", "V3d"};
+static const char* VECS[] = {"V2f", "V3f", "V2d", "V3d", "V4f", "V4d"};
 
 static double pickBound (Rng& r, bool isFloat)
 {
@@ -366,7 +366,7 @@ static Plan generate (uint64_t seed)
             {
                 int k2 = r.below (4);
                 s.op   = k2 == 0 ? "solid" : k2 == 1 ? "hollow" : k2 == 2 ? "gsphere" : "gauss";
-                s.vec  = VECS[r.below (4)];
+                s.vec  = VECS[r.below (6)];
             }
             else if (w < 90 && enReseed) { s.op = "init"; s.seed = r.chance (0.5) ? q.seed : r.next (); }
             else if (w < 95 && enFork) s.op = "fork";
@@ -446,7 +446,7 @@ static Plan generate (uint64_t seed)
             s.type = 'a';
             int k2 = r.below (4);
             s.sampler = k2 == 0 ? "solid" : k2 == 1 ? "hollow" : k2 == 2 ? "gsphere" : "gauss";
-            s.vec     = VECS[r.below (4)];
+            s.vec     = VECS[r.below (6)];
             s.gen     = r.chance (0.5) ? "R48" : "R32";
             s.aseed   = r.next ();
             int nf    = r.range (1, 12);
@@ -540,6 +540,8 @@ template <> struct VecInfo<V2f> { static constexpr double eps = 1.1920929e-07; }
 template <> struct VecInfo<V3f> { static constexpr double eps = 1.1920929e-07; };
 template <> struct VecInfo<V2d> { static constexpr double eps = 2.220446049250313e-16; };
 template <> struct VecInfo<V3d> { static constexpr double eps = 2.220446049250313e-16; };
+template <> struct VecInfo<V4f> { static constexpr double eps = 1.1920929e-07; };
+template <> struct VecInfo<V4d> { static constexpr double eps = 2.220446049250313e-16; };
 
 template <class V> static double exactLen2 (const V& v)
 {
@@ -581,6 +583,8 @@ template <class G> static std::string runSamplerV (const std::string& s, const s
     if (vec == "V2f") return runSampler<V2f> (s, g, out);
     if (vec == "V3f") return runSampler<V3f> (s, g, out);
     if (vec == "V2d") return runSampler<V2d> (s, g, out);
+    if (vec == "V4f") return runSampler<V4f> (s, g, out);
+    if (vec == "V4d") return runSampler<V4d> (s, g, out);
     return runSampler<V3d> (s, g, out);
 }
 
@@ -658,7 +662,7 @@ static std::string twinStep (TwinState<R>& t, const Pair& q, int side, bool isFl
     {
         Counting<R> cg (g);
         std::string r = runSamplerV (s.op, s.vec, cg, outv);
-        int dims = (s.vec[1] == '2') ? 2 : 3;
+        int dims = s.vec[1] - '0';
         int base = s.op == "gauss" ? 2 : s.op == "gsphere" ? dims + 2 : dims;
         if (cg.n > base) st.inc ("probe.sampler_rejected_candidate");
         t.draws[side] += cg.n;
@@ -922,7 +926,7 @@ static Outcome interpret (const Plan& p, Stats& st)
             o.ihash = fnv (fnv (o.ihash, 'X'), s.sampler[0] * 7 + s.vec[1] + s.vec[2]);
             st.inc ("op.ADV." + s.sampler);
             st.inc ("fault.adversarial_generator_value", nforced);
-            int dims = (s.vec[1] == '2') ? 2 : 3;
+            int dims = s.vec[1] - '0';
             int base = s.sampler == "gauss" ? 2 : s.sampler == "gsphere" ? dims + 2 : dims;
             if (ndraws > base) st.inc ("probe.sampler_rejected_candidate");
             for (auto v : outv) o.hash = fnv (o.hash, v);
